@@ -945,6 +945,15 @@ void call_rcu_before_fork(void)
 {
 	struct call_rcu_data *crdp;
 	struct urcu_atfork *atfork;
+	int was_online;
+
+	/*
+	 * Put in offline state in QSBR: a call_rcu thread which is waiting
+	 * for a grace period needs to complete it before it can pause.
+	 */
+	was_online = _rcu_read_ongoing();
+	if (was_online)
+		rcu_thread_offline();
 
 	call_rcu_lock(&call_rcu_mutex);
 
@@ -961,6 +970,9 @@ void call_rcu_before_fork(void)
 		while ((uatomic_load(&crdp->flags) & URCU_CALL_RCU_PAUSED) == 0)
 			(void) poll(NULL, 0, 1);
 	}
+
+	if (was_online)
+		rcu_thread_online();
 }
 
 /*
